@@ -151,6 +151,10 @@ def load (s : Settings) : Except LoadErr Loaded := do
   let end_ := match se with | some v => some v | none => ge
   -- validateOptions
   if maxDepth > maxAllowedDepth then throw .badDepth
+  -- `reg -f PATTERN` is a regular expression; only patterns without metacharacters are modelled
+  match s.sSingleFood with
+    | some pat => if pat.any (fun c => (ofString "\\.+*?()|[]{}^$").contains c) then throw .badCommand else pure ()
+    | none => pure ()
   let rc : RCfg := {
     color := !(s.gNoColor || s.sNoColor)
     totals := !s.sNoTotals
